@@ -23,6 +23,8 @@ Decided (label, scope and stack-pointer discipline of the code generator; struct
  R7 K5  argument counts: every zip() of call arguments with declared parameters in lower.rs is preceded
         by a comparison of the two lengths, locally or at every call site (sibling agreement).
  R8 K5  no type-checking comparison in the compiler compares a value with itself.
+ R9 K9  query cursors: a `return` out of a `map` body releases the loop's cursor (typestate of
+        query_iter_stack) - today a KNOWN FINDING, see known_findings.json.
 Not decided: type mismatches, undefined variables and stack underflow for arbitrary accepted
 programs (needs the soundness of the type checker in lower.rs; value-level)."""
 from rules.core import emit, pat
@@ -355,6 +357,7 @@ def struct_literal_rule(F, rep):
               "expressions: `let g = S { a: \"text\" }` for `struct S { a int }` compiles and `g.a` is a string where an int is expected" % (sorted(got), sorted(want - got)), g.site())
     arity_rule(F, rep)
     self_comparison_rule(F, rep)
+    cursor_release_rule(F, rep)
 
 
 def arity_rule(F, rep):
@@ -441,3 +444,47 @@ def self_comparison_rule(F, rep):
                                       f.path, c.name, ".".join(str(p[1]) for p in a[1])), c.site())
     rep.floor("comparison calls examined for self-comparison", n, 40)
     rep.ok("K5 contradiction", "no comparison call in the compiler has identical operands (%d examined)" % n)
+
+
+def cursor_release_rule(F, rep):
+    """R9 (typestate): a `map` loop pushes a query cursor (QueryStart) that the VM pops only when the cursor is
+    exhausted (QueryNext). Leaving the loop body by `return` must release it some other way, or the caller's
+    enclosing `map` continues on the callee's cursor. Accepted mitigations: the VM's Return handler shrinks
+    query_iter_stack, or the `return` templates emit an instruction whose handler pops it unconditionally."""
+    step = F.fn("aranya_policy_vm::machine::RunState::step")
+    sws = step.discr_switches("instructions::Instruction")
+    outer = step.outer_switch(sws) if sws else None
+    if not outer or "Return" not in outer[1] or "QueryNext" not in outer[1]:
+        rep.anchor_missing("RunState::step arms for Return / QueryNext")
+        return
+    SHRINK = ("pop", "truncate", "clear", "drain", "split_off", "resize_with", "retain")
+
+    def touches_cursor_stack(region):
+        return [c for c in step.calls if c.bb in region and c.name in SHRINK and "field:query_iter_stack" in step.origins(c.args[0], through_calls=())]
+
+    ret_reg = step.dominated_region(outer[1]["Return"])
+    vm_restores = bool(touches_cursor_stack(ret_reg))
+    # instructions whose handler always pops the cursor stack
+    poppers = set()
+    for v, t in outer[1].items():
+        if t == outer[2] or v in ("QueryNext",):
+            continue
+        reg = step.dominated_region(t)
+        if touches_cursor_stack(reg):
+            poppers.add(v)
+    emits = False
+    for f in F.fns:
+        if f.crate == "aranya_policy_compiler" and f.file.endswith("src/compile.rs") and not f.derived:
+            for adt in ("thir::StmtKind", "thir::ExprKind"):
+                sw = f.discr_switches(adt)
+                sk = f.outer_switch(sw) if sw else None
+                if sk and "Return" in sk[1]:
+                    reg = f.dominated_region(sk[1]["Return"])
+                    if any(e.kind == "emit" and e.variant in poppers for e in emit.events(F, f, reg)):
+                        emits = True
+    pushes = [c for c in step.calls if c.name == "push" and "field:query_iter_stack" in step.origins(c.args[0], through_calls=())]
+    rep.check(not pushes or vm_restores or emits, "map|return-releases-query-cursor", "K9 typestate",
+              "a query cursor pushed by QueryStart is released when a `return` leaves the map body (VM Return shrinks the cursor stack, or the return template emits a cursor-popping instruction)",
+              "nothing releases the query cursor when `return` leaves a `map` body: RunState::step's Return arm does not touch query_iter_stack and the `return` templates emit no "
+              "cursor-popping instruction; after the callee returns, the caller's enclosing `map` takes its next row from the callee's cursor (wrong fact) and the VM stops with an "
+              "invalid-struct-member error", step.site())
